@@ -70,6 +70,11 @@ def gen_plan(rng, tier: str, idx: int) -> dict:
         plan["engine"] = {"kernel": rng.choice(["rw", "mh_tuned", "mh_fixed", "iwls", "hmc", "nuts"]), "chains": rng.randint(1, 3),
                           "seed": rng.randrange(2**31), "epochs": [[0, 1, 1]] + eps, "eps0": rng.choice([0.05, 0.3, 1.0, 2.5]),
                           "target": rng.choice([None, 0.5, 0.7]), "scales": [rng.choice([0.5, 1.0, 3.0]), rng.choice([0.5, 1.0, 3.0])]}
+        # F2: an undefined (NaN) target density beyond a radius; the Metropolis-Hastings kernels
+        # report such a transition with acceptance probability 0 and error code 90, and that
+        # reported probability is what dual averaging has to be fed with
+        nb = rng.choice([None, None, 2.0, 3.5])
+        plan["engine"]["nan_beyond"] = nb if plan["engine"]["kernel"] in ("rw", "mh_tuned", "mh_fixed", "iwls") else None
     return plan
 
 
@@ -176,8 +181,13 @@ def check_direct(d, V, counters):
 def build_engine(e):
     s0, s1 = np.float32(e["scales"][0]), np.float32(e["scales"][1])
 
+    nb = e.get("nan_beyond")
+
     def lp(s):
-        return -0.5 * jnp.sum((s["x"] / jnp.asarray([s0, s1])) ** 2)
+        base = -0.5 * jnp.sum((s["x"] / jnp.asarray([s0, s1])) ** 2)
+        if nb is None:
+            return base
+        return jnp.where(jnp.max(jnp.abs(s["x"])) > nb, jnp.nan, base)
 
     model = gs.DictInterface(lp)
     kw = {} if e["target"] is None else {"da_target_accept": e["target"]}
@@ -213,7 +223,10 @@ def check_engine(e, V, log, counters):
     ks = res.kernel_states.unwrap().combine_all().unwrap()[0]
     F = {f: np.asarray(getattr(ks, f), np.float64) for f in ("step_size", "error_sum", "log_avg_step_size", "mu")}
     imm = np.asarray(ks.inverse_mass_matrix, np.float64) if hasattr(ks, "inverse_mass_matrix") else None
-    acc = np.asarray(res.transition_infos.combine_all().unwrap()["kernel_00"].acceptance_prob, np.float64)
+    infos = res.transition_infos.combine_all().unwrap()["kernel_00"]
+    acc = np.asarray(infos.acceptance_prob, np.float64)
+    codes = np.asarray(infos.error_code)
+    counters["probe.nan_density_transitions"] = int((codes == 90).sum())
     const = (ker.da_target_accept, ker.da_gamma, ker.da_kappa, ker.da_t0)
     tunes = e["kernel"] != "mh_fixed"
     C = e["chains"]
